@@ -1232,6 +1232,12 @@ func ruleConstIndexGuarded(c *Ctx, rule string, pkgs ...string) {
 								return true
 							}
 						}
+						// buf[:0]: an emptied scratch buffer that is appended to
+						if x.High != nil {
+							if k, ok := constInt(x.High); ok && k == 0 {
+								return true
+							}
+						}
 						return rec(x.X)
 					case *ssa.Phi:
 						for _, e := range x.Edges {
@@ -1657,7 +1663,37 @@ func ruleModeFlagsAfterEncoderLock(c *Ctx, rule string) {
 	for _, g := range helperClosure(begin, 1) {
 		gflow := flow
 		if g != begin {
-			continue // helpers are entered from beginCommand: checked at their call sites below
+			// a helper of beginCommand: its capability queries are fine when
+			// every call of the helper comes after the lock was taken
+			entered := len(callSitesOf(p, g)) > 0
+			for _, site := range callSitesOf(p, g) {
+				if site.Parent() != begin {
+					entered = false
+					continue
+				}
+				if f, reach := flow.at(site); reach && !f.has("enc-locked") {
+					entered = false
+				}
+			}
+			hasQuery := false
+			var qpos token.Pos
+			allInstrs(g, func(i ssa.Instruction) {
+				if call, ok := i.(*ssa.Call); ok {
+					if o := calleeObj(call); o != nil && o.Name() == "Has" && len(call.Call.Args) > 0 {
+						if r, ok := loadedField(call.Call.Args[0]); ok && r.Owner != nil && r.Owner.Obj().Name() == "Client" {
+							hasQuery = true
+							qpos = call.Pos()
+						}
+					}
+				}
+			})
+			if hasQuery {
+				n++
+				c.check(entered, rule, "beginCommand: capability queries of "+fnKey(g), qpos,
+					"the helper is only entered after the encoder lock was taken",
+					"the capabilities are consulted for the command's wire syntax in "+fnKey(g)+", which is called before the encoder lock is acquired")
+			}
+			continue
 		}
 		allInstrs(g, func(i ssa.Instruction) {
 			call, ok := i.(*ssa.Call)
@@ -2055,7 +2091,7 @@ func ruleTrailingLiteralSizes(c *Ctx, rule string) {
 		return
 	}
 	var helper *ssa.Function
-	for _, h := range helperClosure(dl, 1) {
+	for _, h := range helperClosure(dl, 2) {
 		if h != dl && h.Signature.Results().Len() == 2 {
 			if b, ok := h.Signature.Results().At(0).Type().Underlying().(*types.Basic); ok && b.Kind() == types.Int64 {
 				helper = h
